@@ -697,15 +697,38 @@ def wf_forall(shape, cond_fn, what):
     loc = ctx.loc or "?"
     head, _, detail = what.partition(" ")
     ctx.oblige(f"wf:{loc}:{head}", goal, kind="wf", note=detail)
-    if vs:
+    fin = _finite_conj(shape, cond_fn)
+    if fin is not None:
+        ctx.assume(fin)
+    elif vs:
         body = B_(goal)
         ctx.assume(z3.ForAll(vs, body))
     else:
         ctx.assume(B_(goal))
 
 
+def _finite_conj(shape, cond_fn, limit=64):
+    """Concrete small shape: the universal fact as a finite (quantifier-free) conjunction, else None."""
+    if not all(isinstance(n, int) for n in shape):
+        return None
+    tot = 1
+    for n in shape:
+        tot *= max(n, 0)
+    if tot > limit:
+        return None
+    import itertools as it
+
+    cs = [cond_fn(tuple(I)) for I in it.product(*[range(n) for n in shape])]
+    cs = [c for c in cs if not (isinstance(c, bool) and c)]
+    return B_(AND(*cs)) if cs else z3.BoolVal(True)
+
+
 def assume_forall(shape, cond_fn):
     ctx = cur()
+    fin = _finite_conj(shape, cond_fn)
+    if fin is not None:
+        ctx.assume(fin)
+        return
     vs, I, rng = [], [], []
     for d, n in enumerate(shape):
         if isinstance(n, int) and n == 1:
